@@ -147,6 +147,7 @@ func runC14(c *eng.Ctx) {
 		c.Unresolved(fmt.Sprintf("loads of nats.Msg.Data (found %d, expected >= 10)", len(srcs)))
 	}
 	checkTaintedAccesses(c, t, nil)
+	bceCrossCheck(c, t, []string{"./server/protocol/", "./server/commitlog/", "./server/"})
 	// the decoders must be in the closure
 	fns := t.Funcs()
 	for _, must := range []string{"server/protocol.checkEnvelope", "server/protocol.UnmarshalReplicationResponse", "server.(*partition).handleReplicationResponse", "server.getMessage"} {
